@@ -632,6 +632,7 @@ def run_rejection_checks(chk):
 
     checks = [
         ("framestack-on-discrete", lambda: VecFrameStack(mk(spaces.Discrete(5)), 2), AssertionError),
+        ("framestack-on-dict-with-discrete-key", lambda: VecFrameStack(mk(spaces.Dict({"a": spaces.Discrete(3), "b": make_space("box1")})), 2), TypeError),
         ("framestack-box-with-per-key-order", lambda: VecFrameStack(mk(make_space("box1")), 2, channels_order={"a": "first"}), TypeError),
         ("framestack-invalid-order", lambda: VecFrameStack(mk(make_space("box1")), 2, channels_order="middle"), AssertionError),
         ("transpose-on-channels-first-image", lambda: VecTransposeImage(mk(make_space("img_chw"))), AssertionError),
